@@ -23,7 +23,7 @@ def harness_list(tier, seed=0):
            ('c08_bitpack_z17', 'all byte strings of a z polynomial (gamma1 = 2^17)'), ('c08_bitpack_z19', 'all byte strings of a z polynomial (gamma1 = 2^19)')]
     for n, b in (bij if tier == 'thorough' else bij[:1]):
         hs.append(Harness('verif_kani::c08::' + n, 'C08', timeout=3000, mem_gb=16, bounds=b + '; decoded index and re-encoded byte index symbolic'))
-    rts = ['c08_roundtrip_eta2', 'c08_roundtrip_eta4', 'c08_roundtrip_w1_44', 'c08_roundtrip_w1_65']
+    rts = ['c08_roundtrip_eta2', 'c08_roundtrip_eta4', 'c08_roundtrip_w1_44', 'c08_roundtrip_w1_65', 'c08_roundtrip_t0']
     for n in (rts if tier == 'thorough' else [rts[seed % 2], rts[2 + seed % 2]]):
         hs.append(Harness('verif_kani::c08::' + n, 'C08', timeout=2400, bounds='two adjacent symbolic in-range coefficients at a symbolic position, zeros elsewhere'))
     if tier == 'thorough':
